@@ -237,12 +237,33 @@ theorem exp_fields (t : Option Json) (id : Json) (ns su : Option Json) :
       = some [t, some id, ns, su] := by
   cases t <;> cases ns <;> cases su <;> rfl
 
-/-- PARTIAL: the JSON form has no field for the namespace URI, so only `uri = none` round-trips -/
-theorem expNodeId_rt (e : ExpNodeId) (hu : e.uri = none) (hs : e.svr ≤ 4294967295) (h : WFNode e.node) :
-    expNodeIdFromJ (expNodeIdJ e) = some e := by
+/-- ExpandedNodeId: without a namespace uri every namespace index; with a uri (current source) index 0 —
+the JSON form, like the text form, has one `Namespace` slot (recorded finding for uri + index ≠ 0). -/
+theorem nsUri_rt (uriJson : Bool) (uri : Option (List Char)) (ns : Nat) (hns : ns ≤ 65535)
+    (hu : uri = none ∨ (uriJson = true ∧ ns = 0)) :
+    nsUriFromJ uriJson (optPresent (nsFieldJ uriJson uri ns)) = some (ns, uri) := by
+  have hix := indexField_rt 65535 ns hns (by decide)
+  cases uri with
+  | none =>
+    have e1 : nsFieldJ uriJson none ns = if ns = 0 then none else some (natJ ns) := by
+      cases uriJson <;> rfl
+    rw [e1]
+    by_cases h0 : ns = 0
+    · subst h0; cases uriJson <;> simp [optPresent, nsUriFromJ, indexField]
+    · have e2 : optPresent (if ns = 0 then none else some (natJ ns)) = some (natJ ns) := by simp [h0, optPresent, natJ]
+      rw [e2] at hix ⊢
+      cases uriJson <;> simp [nsUriFromJ, natJ, hix] <;> (simp only [natJ] at hix; simp [hix])
+  | some u =>
+    rcases hu with hu | ⟨rfl, rfl⟩
+    · cases hu
+    · simp [nsFieldJ, optPresent, nsUriFromJ]
+
+theorem expNodeId_rt (uriJson : Bool) (e : ExpNodeId)
+    (hu : e.uri = none ∨ (uriJson = true ∧ e.node.ns = 0)) (hs : e.svr ≤ 4294967295) (h : WFNode e.node) :
+    expNodeIdFromJ uriJson (expNodeIdJ uriJson e) = some e := by
   unfold expNodeIdFromJ expNodeIdJ
   rw [exp_fields]
-  simp only [optU_type, indexField_rt 65535 e.node.ns h.1 (by decide), indexField_rt 4294967295 e.svr hs (by decide),
+  simp only [optU_type, nsUri_rt uriJson e.uri e.node.ns h.1 hu, indexField_rt 4294967295 e.svr hs (by decide),
     ident_rt e.node.id h.2]
   obtain ⟨⟨ns, id⟩, uri, svr⟩ := e
   simp_all
@@ -283,7 +304,7 @@ mutual
     | .byteString b => ∀ x, b = some x → ∀ y ∈ x, y < 256
     | .xml s => s = none → cfg.xmlNull = true
     | .nodeId n => WFNode n
-    | .expNodeId e => e.uri = none ∧ e.svr ≤ 4294967295 ∧ WFNode e.node
+    | .expNodeId e => (e.uri = none ∨ (cfg.uriJson = true ∧ e.node.ns = 0)) ∧ e.svr ≤ 4294967295 ∧ WFNode e.node
     | .status c => c ≤ 4294967295 ∧ c &&& cfg.mask = c
     | .qname q => q.ns ≤ 65535
     | .ltext _ => True
@@ -336,15 +357,14 @@ theorem double_rt (b : Nat) (hb : b < 2 ^ 64) (hn : classify64 b = .nan → b = 
     cases neg <;> simp [optPresent, f64Body, this]
   | fin neg m e => simp [optPresent, f64Body, asF64, hc]
 
-theorem varJ_obj : ∀ (v : Var) (j : Json), varJ v = .ok j → j ≠ .null := by
+theorem varJ_obj (cfg : Cfg) : ∀ (v : Var) (j : Json), varJ cfg v = .ok j → j ≠ .null := by
   intro v j h
   cases v <;> simp [varJ, variantJ, bindJ] at h <;> (try (subst h; simp))
   all_goals
-    split at h <;> simp at h
-    subst h; simp
+    split at h <;> simp at h <;> (subst h; simp)
 
 
-theorem dvalJ_obj : ∀ (d : DVal) (j : Json), dvalJ d = .ok j → j ≠ .null := by
+theorem dvalJ_obj (cfg : Cfg) : ∀ (d : DVal) (j : Json), dvalJ cfg d = .ok j → j ≠ .null := by
   intro d j h
   match d, h with
   | .mk (some v) .., h =>
@@ -385,7 +405,7 @@ theorem rest_rt (cfg : Cfg) (st : Option Nat) (sts : Option DT) (sp : Option Nat
   ⟨optStatus_rt _ _ h.1, optDt_rt _ h.2.1, optU_rt _ _ h.2.2.1, optDt_rt _ h.2.2.2.1, optU_rt _ _ h.2.2.2.2⟩
 
 theorem nodeIdJ_ne (n : NodeId) : nodeIdJ n ≠ .null := by simp [nodeIdJ]
-theorem expNodeIdJ_ne (e : ExpNodeId) : expNodeIdJ e ≠ .null := by simp [expNodeIdJ]
+theorem expNodeIdJ_ne (b : Bool) (e : ExpNodeId) : expNodeIdJ b e ≠ .null := by simp [expNodeIdJ]
 
 /-- `float32J` never yields `null`, so the body is present -/
 theorem floatBody_present (cfg : Cfg) (b : Nat) (h : floatBody cfg (some (float32J b)) = some b) :
@@ -395,7 +415,7 @@ theorem floatBody_present (cfg : Cfg) (b : Nat) (h : floatBody cfg (some (float3
   rw [optPresent_of_ne this]; exact h
 
 mutual
-  theorem var_rt (cfg : Cfg) : ∀ (v : Var), WFVar cfg v → ∀ f, v.depth ≤ f → ∀ j, varJ v = .ok j →
+  theorem var_rt (cfg : Cfg) : ∀ (v : Var), WFVar cfg v → ∀ f, v.depth ≤ f → ∀ j, varJ cfg v = .ok j →
       varFromJ cfg f j = .ok v
     | .empty, _, f, hf, j, hj => by
       simp only [varJ, Res.ok.injEq] at hj; subst hj
@@ -411,7 +431,7 @@ mutual
       · simp [variantJ]
     | .variant v, h, f, hf, j, hj => by
       simp only [varJ] at hj
-      cases hv : varJ v with
+      cases hv : varJ cfg v with
       | err => simp [hv, bindJ] at hj
       | panic => simp [hv, bindJ] at hj
       | ok jv =>
@@ -419,11 +439,11 @@ mutual
         obtain ⟨f, rfl⟩ : ∃ g, f = g + 1 := ⟨f - 1, by simp only [Var.depth] at hf; omega⟩
         have ih := var_rt cfg v (by simpa [WFVar] using h) f (by simp only [Var.depth] at hf; omega) jv hv
         rw [varFromJ, variant_fields]
-        · simp [uintJ_natJ, optPresent_of_ne (varJ_obj v jv hv), optPresent_none, ih]
+        · simp [uintJ_natJ, optPresent_of_ne (varJ_obj cfg v jv hv), optPresent_none, ih]
         · simp [variantJ]
     | .dataValue d, h, f, hf, j, hj => by
       simp only [varJ] at hj
-      cases hv : dvalJ d with
+      cases hv : dvalJ cfg d with
       | err => simp [hv, bindJ] at hj
       | panic => simp [hv, bindJ] at hj
       | ok jd =>
@@ -431,7 +451,7 @@ mutual
         obtain ⟨f, rfl⟩ : ∃ g, f = g + 1 := ⟨f - 1, by simp only [Var.depth] at hf; omega⟩
         have ih := dval_rt cfg d (by simpa [WFVar] using h) f (by simp only [Var.depth] at hf; omega) jd hv
         rw [varFromJ, variant_fields]
-        · simp [uintJ_natJ, optPresent_of_ne (dvalJ_obj d jd hv), optPresent_none, ih]
+        · simp [uintJ_natJ, optPresent_of_ne (dvalJ_obj cfg d jd hv), optPresent_none, ih]
         · simp [variantJ]
     | .array, h, _, _, _, _ => by simp [WFVar] at h
     | .sbyte v, h, f, hf, j, hj => by
@@ -553,7 +573,7 @@ mutual
       obtain ⟨f, rfl⟩ : ∃ g, f = g + 1 := ⟨f - 1, by simp only [Var.depth] at hf; omega⟩
       simp only [WFVar] at h
       rw [varFromJ, variant_fields]
-      · simp [uintJ_natJ, optPresent_none, optPresent_of_ne (expNodeIdJ_ne e), okOr, requireJ, expNodeId_rt e h.1 h.2.1 h.2.2]
+      · simp [uintJ_natJ, optPresent_none, optPresent_of_ne (expNodeIdJ_ne cfg.uriJson e), okOr, requireJ, expNodeId_rt cfg.uriJson e h.1 h.2.1 h.2.2]
       · simp [variantJ]
     | .status c, h, f, hf, j, hj => by
       simp only [varJ, Res.ok.injEq] at hj; subst hj
@@ -582,11 +602,11 @@ mutual
         simp only [ltextJ] at hq
         simp [uintJ_natJ, optPresent_none, optPresent, ltextJ, okOr, requireJ, hq]
       · simp [variantJ]
-  theorem dval_rt (cfg : Cfg) : ∀ (d : DVal), WFDVal cfg d → ∀ f, d.depth ≤ f → ∀ j, dvalJ d = .ok j →
+  theorem dval_rt (cfg : Cfg) : ∀ (d : DVal), WFDVal cfg d → ∀ f, d.depth ≤ f → ∀ j, dvalJ cfg d = .ok j →
       dvalFromJ cfg f j = .ok d
     | .mk (some v) st sts sp vts vp, h, f, hf, j, hj => by
       simp only [dvalJ] at hj
-      cases hv : varJ v with
+      cases hv : varJ cfg v with
       | err => simp [hv, bindJ] at hj
       | panic => simp [hv, bindJ] at hj
       | ok jv =>
@@ -598,7 +618,7 @@ mutual
         have hf := dval_fields (some jv) st sts sp vts vp
         simp only [optField, List.cons_append, List.nil_append] at hf
         rw [dvalFromJ, hf]
-        simp only [r1, r2, r3, r4, r5, optPresent_of_ne (varJ_obj v jv hv), ih]
+        simp only [r1, r2, r3, r4, r5, optPresent_of_ne (varJ_obj cfg v jv hv), ih]
     | .mk none st sts sp vts vp, h, f, hf, j, hj => by
       simp only [dvalJ, Res.ok.injEq] at hj; subst hj
       obtain ⟨f, rfl⟩ : ∃ g, f = g + 1 := ⟨f - 1, by simp only [DVal.depth] at hf; omega⟩
